@@ -1114,6 +1114,19 @@ class Enumerator:
         if nx is not None:
             yield from self._eval_next(nx[0], nx[1], st, handlers, value)
             return
+        if isinstance(v, ast.Tuple) and has_call(v) and not any(
+                isinstance(e, ast.Starred) for e in v.elts):
+            # a tuple display keeps its structure; its elements are
+            # evaluated left to right
+            fake = ast.Call(func=ast.Name(id='tuple', ctx=ast.Load()),
+                            args=list(v.elts), keywords=[])
+            for s, c2, rs in self._eval_call_args(fake, st, handlers, value):
+                if rs is not None:
+                    yield s, None, rs
+                else:
+                    yield s, ast.Tuple(elts=list(c2.args),
+                                       ctx=ast.Load()), None
+            return
         if self._is_record_ctor(v):
             # a namedtuple built here keeps its structure: field reads and
             # unpacking see the arguments
@@ -1879,8 +1892,49 @@ class Enumerator:
                 else:
                     yield s2, status
 
+    def _desugar_map_filter(self, node):
+        """for x in map(f, IT): B   ->  for _t in IT: x = f(_t); B
+        for x in filter(p, IT): B ->  for x in IT: if not p(x): continue; B"""
+        it = node.iter
+        if not (isinstance(it, ast.Call) and isinstance(it.func, ast.Name)
+                and it.func.id in ('map', 'filter') and len(it.args) == 2
+                and not it.keywords and self.prog.resolve(
+                    self._stack[-1].module, it.func) ==
+                'builtin:' + it.func.id):
+            return None
+        fn, src = it.args
+        n = self.__dict__.setdefault('_mf', 0) + 1
+        self._mf = n
+        if it.func.id == 'map':
+            tmp = '_mapped%d' % n
+            first = ast.Assign(targets=[node.target], value=ast.Call(
+                func=fn, args=[ast.Name(id=tmp, ctx=ast.Load())],
+                keywords=[]))
+            new = ast.For(target=ast.Name(id=tmp, ctx=ast.Store()), iter=src,
+                          body=[first] + list(node.body), orelse=node.orelse)
+        else:
+            if not isinstance(node.target, ast.Name):
+                return None
+            x = ast.Name(id=node.target.id, ctx=ast.Load())
+            test = x if (isinstance(fn, ast.Constant) and fn.value is None) \
+                else ast.Call(func=fn, args=[x], keywords=[])
+            guard = ast.If(test=ast.UnaryOp(op=ast.Not(), operand=test),
+                           body=[ast.Continue()], orelse=[])
+            new = ast.For(target=node.target, iter=src,
+                          body=[guard] + list(node.body), orelse=node.orelse)
+        ast.copy_location(new, node)
+        for b in ast.walk(new):
+            if not hasattr(b, 'lineno'):
+                b.lineno = b.end_lineno = node.lineno
+                b.col_offset = b.end_col_offset = 0
+        return new
+
     def _for(self, node, st, handlers):
         line = node.lineno
+        mf = self._desugar_map_filter(node)
+        if mf is not None:
+            yield from self._for(mf, st, handlers)
+            return
         if isinstance(node.iter, (ast.Tuple, ast.List)) and 0 < len(
                 node.iter.elts) <= 4 and not any(
                     isinstance(e, ast.Starred) for e in node.iter.elts) \
